@@ -76,6 +76,10 @@ CONTENT_VARIANTS = {
         ('unencodable', {'text': 'snow ☃', 'encoding': 'ascii'}, REJECT),
         ('unencodable-latin', {'text': '日本', 'encoding': 'latin-1'},
          REJECT),
+        ('unencodable-surrogate-sig', {'text': 'a\ud83d', 'encoding':
+                                       'utf-8-sig'}, REJECT),
+        ('unencodable-surrogate-16', {'text': '\udc00b', 'encoding':
+                                      'utf-16'}, REJECT),
         ('codec-unknown', {'encoding': 'nope-8'}, REJECT),
         ('indent-neg', {'indent': -1}, MAY),
         ('indent-none', {'indent': None}, MAY),
